@@ -2642,6 +2642,41 @@ fn build_archive(entries: &[Value]) -> Vec<u8> {
     use std::io::Write;
     let mut tarbytes: Vec<u8> = Vec::new();
     for e in entries {
+        // an entry whose real name is carried by an extension record in front of it (a GNU long-name
+        // record or a PAX `path` record); the name in the entry's own header is then only a stand-in
+        if let Some(long) = e["long_name"].as_str() {
+            let mut data = long.as_bytes().to_vec();
+            let mut h = tar::Header::new_gnu();
+            {
+                let name = &mut h.as_old_mut().name;
+                for b in name.iter_mut() {
+                    *b = 0;
+                }
+                let tag = b"././@LongLink";
+                name[..tag.len()].copy_from_slice(tag);
+            }
+            if e["pax"].as_bool().unwrap_or(false) {
+                // "<len> path=<value>\n" where <len> counts the whole record
+                let body = format!(" path={long}\n");
+                let mut len = body.len() + 1;
+                while format!("{len}{body}").len() != len {
+                    len = format!("{len}{body}").len();
+                }
+                data = format!("{len}{body}").into_bytes();
+                h.set_entry_type(tar::EntryType::XHeader);
+            } else {
+                data.push(0);
+                h.set_entry_type(tar::EntryType::GNULongName);
+            }
+            h.set_size(data.len() as u64);
+            h.set_mode(0o644);
+            h.set_mtime(0);
+            h.set_cksum();
+            tarbytes.extend_from_slice(h.as_bytes());
+            tarbytes.extend_from_slice(&data);
+            let pad = (512 - data.len() % 512) % 512;
+            tarbytes.extend(std::iter::repeat(0u8).take(pad));
+        }
         let mut header = tar::Header::new_gnu();
         let raw = e["path"].as_str().unwrap().as_bytes();
         {
